@@ -253,7 +253,12 @@ func c13Random(rr *prng.R, r *fw.Rec) {
 			arrOf := func(v string) jast.Node {
 				return &jast.Path{Steps: []jast.Node{&jast.Var{Name: v}, &jast.Name{V: "arr"}}}
 			}
-			switch rr.Intn(3) {
+			switch rr.Intn(5) {
+			case 3:
+				// a relative sequence: the members' items are sorted as one sequence
+				tree = &jast.Path{Steps: []jast.Node{srt(&jast.Name{V: "arr"}), id}}
+			case 4:
+				tree = &jast.Path{Steps: []jast.Node{&jast.Pred{X: srt(&jast.Name{V: "arr"}), Filters: []jast.Node{&jast.Num{V: 0}}}, id}}
 			case 0:
 				tree = &jast.Path{Steps: []jast.Node{srt(arrOf("$")), id}}
 			case 1:
